@@ -186,6 +186,33 @@ def main(argv=None):
         elif x['status'] == 'undecided':
             undecided.append((x['name'], x.get('reason', '')))
 
+    # ---- thorough tier: proof stability under other solver seeds, and the replay battery as an assumption spot-check
+    unstable = []
+    spot = {'ran': False}
+    if tier == 'thorough':
+        for r in results:
+            for sr in getattr(r, 'seed_runs', []):
+                if sr['status'] != 'ok':
+                    unstable.append({'unit': r.unit.name, 'seed': sr['seed'], 'status': sr['status']})
+        try:
+            from . import replay as rpl
+            spot = {'ran': True, 'seeds': [], 'failing_inputs': 0, 'notes': []}
+            for k in range(3):
+                sd = seed + k
+                fails_, note_ = rpl.run_battery(prop, sd)
+                spot['seeds'].append(sd)
+                if note_:
+                    spot['notes'].append(note_[:200])
+                for f_ in fails_[:3]:
+                    spot['failing_inputs'] += 1
+                    violations.append((None, {'fn': f_.get('function'), 'clause': f_.get('clause'), 'name': 'replay-battery',
+                                              'message': 'replay battery (thorough tier spot-check, seed %d): observed %s, expected %s' % (sd, f_.get('observed'), f_.get('expected')),
+                                              'input': f_.get('input'), 'battery': f_}))
+                if fails_:
+                    break
+        except Exception as e:
+            spot = {'ran': False, 'error': str(e)[-300:]}
+
     # ---- evidence
     obligations = 0
     discharged = 0
@@ -253,6 +280,8 @@ def main(argv=None):
             'bounded': [x for x in extras if x.get('counts_as') == 'bounded'],
             'known_findings': [{'fn': k.get('fn'), 'clause': k.get('clause'), 'desc': k.get('desc')} for k, _ in known_hits],
             'undecided': [{'unit': n, 'reason': why} for n, why in undecided],
+            'unstable_under_reseeding': unstable,
+            'assumption_spot_check': spot,
             'source_tree_hash': key, 'expansion_cached': cached, 'expansion_s': round(exp_s, 2),
         },
         'assumptions': [
@@ -283,6 +312,15 @@ def main(argv=None):
                    'unit': r.unit.name if r else fl.get('name'), 'input': fl.get('input'),
                    'cmd': 'bin/check --replay %s' % rp, 'source_tree_hash': key}
             suffix = ' no-failing-input-found'
+            if fl.get('battery'):
+                b_ = fl['battery']
+                rec.update({'verifier': 'replay battery (thorough tier)', 'input': b_.get('input'), 'observed': b_.get('observed'), 'expected': b_.get('expected'),
+                            'battery_function': b_.get('function'), 'battery_clause': b_.get('clause'),
+                            'replay_how': 'replay/src (oracle from the property statement) built against the current tree'})
+                with open(rp, 'w') as f:
+                    json.dump(rec, f, indent=1)
+                print('VIOLATION property=%s replay=%s obligation=%s::%s (replay battery, concrete failing input)' % (prop, rp, fl.get('fn'), fl.get('clause')))
+                continue
             try:
                 from . import replay as rpl
                 found = rpl.search(prop, rec, seed)
@@ -331,8 +369,11 @@ def main(argv=None):
             print('UNDECIDED property=%s unit=%s reason=%s' % (prop, n, ' '.join(why.split())[:400]))
         rc = 2
     if rc == 0:
-        print('OK property=%s tier=%s units=%d obligations=%d discharged=%d wall=%.1fs' % (
-            prop, tier, len(results), obligations, discharged, time.time() - t0))
+        extra_ = ''
+        if tier == 'thorough':
+            extra_ = ' reseeded-runs=%d unstable=%d battery-seeds=%s' % (sum(len(getattr(r, 'seed_runs', [])) for r in results), len(unstable), spot.get('seeds'))
+        print('OK property=%s tier=%s units=%d obligations=%d discharged=%d wall=%.1fs%s' % (
+            prop, tier, len(results), obligations, discharged, time.time() - t0, extra_))
     if a.replay and replay_target:
         still = [fl for _, fl in violations if (fl.get('fn'), fl.get('clause')) == replay_target]
         print('REPLAY %s: obligation %s::%s %s' % (a.replay, replay_target[0], replay_target[1],
